@@ -238,6 +238,25 @@ def deleteObject (H : Bytes → Str) (st : DState) (u : Str) : Res (DState × Op
         .ok (st.withTree u t', some rev.render)
       else .ok (st, none)
 
+/-- `remove_object`: drop the staged history of an object; forget the object when nothing is left,
+    otherwise record a deletion -/
+def removeObject (H : Bytes → Str) (st : DState) (u : Str) : Res (DState × Option Str) :=
+  match st.treeOf u with
+  | none => .ok (st, none)
+  | some t =>
+    let t1 := t.unstage
+    if t1.isEmpty then
+      .ok ({ st with p := { st.p with docs := st.p.docs.filter (fun p => p.1 ≠ u) } }, none)
+    else
+      match t1.winner with
+      | none => .err "object_has_no_winner"
+      | some w =>
+        if !w.isDeleted && !w.isResolved then
+          let rev := Rev.del H w
+          let (t', _) := t1.add rev (some w) true
+          .ok (st.withTree u t', some rev.render)
+        else .ok (st.withTree u t1, none)
+
 /-- `resolve_as` -/
 def resolveAs (H : Bytes → Str) (src : Src) (st : DState) (u : Str) (winner : Str) : Res (DState × Str) :=
   match Rev.parse winner with
